@@ -219,9 +219,17 @@ def cpp_part(widx, seed, tier, stats):
         merged, _ = cpph.merge_cases([(s, []) for s in chunk])
         try:
             bad = cpp_statics(merged)
-        except (cpph.BuildFailed, pyh.CompileFailed):
-            stats.notes['tu_build_failed'] += 1
+        except pyh.CompileFailed:
+            stats.notes['tu_refused'] += 1
             continue
+        except cpph.BuildFailed as ex:
+            msg = cpph.compile_errors(ex)
+            if not msg:
+                stats.notes['build_died_without_compiler_error'] += 1
+                continue
+            stats.violations.append({'what': "the generated C++ sources of accepted schemas do not compile: " + msg,
+                                     'case': common.case_payload(merged, None, None, {'compiler': msg, 'cpp': True})})
+            return
         rw = RefWire(merged)
         for c in merged.composites():
             feats = type_features(rw, c) | {'cpp'}
